@@ -32,24 +32,8 @@ Add(f, x, w) == IF x \in DOMAIN f THEN [f EXCEPT ![x] = @ + w] ELSE f @@ (x :> w
 Plus(f, g) == [x \in DOMAIN f \cup DOMAIN g |-> Get(f, x) + Get(g, x)]
 Min2(a, b) == IF a <= b THEN a ELSE b
 Max2(a, b) == IF a >= b THEN a ELSE b
-Cap(lg) == (3 * 2^lg) \div 4                 \* static_cast<uint32_t>((1 << lg) * 0.75)
-
-\* element of 0-based index floor(n/2) of the ascending sequence of counter values
-Median(c) == LET n == Cardinality(DOMAIN c)  k == n \div 2 IN
-  CHOOSE v \in {c[x] : x \in DOMAIN c} :
-     /\ Cardinality({x \in DOMAIN c : c[x] < v}) <= k
-     /\ Cardinality({x \in DOMAIN c : c[x] <= v}) > k
-
-\* reverse_purge_hash_map::adjust_or_insert + resize_or_purge_if_needed; s = [cnt, lgCur, lgMax, offset]
-Ins(s, x, w) ==
-  LET c1 == Add(s.cnt, x, w) IN
-  IF x \in DOMAIN s.cnt \/ Cardinality(DOMAIN c1) <= Cap(s.lgCur) THEN [s EXCEPT !.cnt = c1]
-  ELSE IF s.lgCur < s.lgMax THEN [s EXCEPT !.cnt = c1, !.lgCur = @ + 1]
-  ELSE LET m == Median(c1) IN
-       [s EXCEPT !.cnt = [y \in {z \in DOMAIN c1 : c1[z] > m} |-> c1[y] - m], !.offset = @ + m]
-
-RECURSIVE Replay(_, _, _)
-Replay(s, order, c) == IF order = <<>> THEN s ELSE Replay(Ins(s, Head(order), c[Head(order)]), Tail(order), c)
+\* the mechanism itself (capacity, median, insert / resize / purge, merge replay) is the shared module FreqItemsMech
+INSTANCE FreqItemsMech
 
 RECURSIVE Perms(_)
 Perms(S) == IF S = {} THEN {<<>>} ELSE UNION {{<<x>> \o p : p \in Perms(S \ {x})} : x \in S}
@@ -57,7 +41,7 @@ Perms(S) == IF S = {} THEN {<<>>} ELSE UNION {{<<x>> \o p : p \in Perms(S \ {x})
 Init == obj = <<>>
 New(i, lg, lgStart) ==
   /\ i \notin Live /\ lgStart <= lg
-  /\ obj' = (i :> [lgMax |-> Max2(lg, LgMin), lgCur |-> Max2(lgStart, LgMin), cnt |-> <<>>, offset |-> 0, total |-> 0,
+  /\ obj' = (i :> [lgMax |-> Max2(lg, LgMin), lgCur |-> StartLg(lgStart, LgMin), cnt |-> <<>>, offset |-> 0, total |-> 0,
                    truth |-> <<>>, lgLo |-> Max2(lg, LgMin), lgHi |-> Max2(lg, LgMin)]) @@ obj
 Update(i, x, w) ==
   /\ i \in Live
@@ -70,7 +54,7 @@ Merge(i, j, order) ==
   /\ LET o == obj[i]  p == obj[j]
          \* the mechanism
          real == IF OtherIsEmpty(p) THEN o
-                 ELSE [Replay(o, order, p.cnt) EXCEPT !.offset = @ + p.offset, !.total = o.total + p.total]
+                 ELSE [MergeMaps(o, order, p.cnt, p.offset) EXCEPT !.total = o.total + p.total]
      IN \* the ghosts record what was offered, whatever the mechanism did with it
         obj' = [obj EXCEPT ![i] = IF p.total = 0 THEN real
                                   ELSE [real EXCEPT !.truth = Plus(o.truth, p.truth),
